@@ -178,3 +178,7 @@ package cache
 // ASSUMED: no stream is longer than 2^62 bytes.
 //@ extern io.Copy(dst, src)
 //@   ensures 0 <= result0 && result0 <= B62()
+
+//@ extern context.WithCancel(parent)
+//@   pure
+//@   ensures result0 != nil && result1 != nil
